@@ -218,6 +218,23 @@ def main(tier, only_replay=None):
             sig = {"devs": "none", "matches_impl": "no", "what": "pasted lines leave an open parenthesis"}
             chk.violation("the lines written in place are rejected by the scan stage (%r) but the same lines pasted from a macro are accepted (%s) | macro form:\n%s" % (
                 a["err"]["msg"], nm, mcr), {"kind": "paste_pair", "name": nm, "inlined": inl, "macro_form": mcr, "signature": sig}, sig)
+    # 6. a block that ends a context at the scan stage ends it at the expansion stage too: the directive written after a
+    #    MACRO block (MACRO stands at top level only) has the same parent in both forests
+    for k, (head, follower) in enumerate([("URL /zmb\n  GET\n    200 any\n", "POST\n  200 any\n"), ("URL /zmb\n  GET\n    200 any\n", "Tags @zt\n"),
+                                          ("GET /zmb\n  200 any\n", "404 any\n"), ("TAG @zt\n", "Description\n  text\n")]):
+        text = "JSIGHT 0.3\nTAG @zt\n" + head + "MACRO @zblock\n(\n  TYPE @zin any\n)\n" + follower
+        o = harness("run", [{"id": "mb", "files": {"main.jst": b64(text)}, "root": "main.jst", "want": ["forest", "pastes"]}])["mb"]
+        chk.evaluations += 1
+        chk.traces += 1
+        chk.nontrivial.add("macro_block:%d" % k)
+        if "paste" not in o["stages"]:
+            continue                 # rejected while scanning: the follower found no place - as the rule says
+        fpos = text.encode().rfind(follower.split()[0].encode())
+        pa, pb = flatten(o.get("forest") or []).get(("main.jst", fpos), "absent"), flatten(o.get("pastes") or []).get(("main.jst", fpos), "absent")
+        if pa != pb:
+            sig = {"devs": "none", "matches_impl": "no", "what": "placement differs between the scan stage and the expansion stage", "detail": "directive-after-a-macro-block"}
+            chk.violation("the directive written after a MACRO block has parent %s after scanning and parent %s after the expansion stage | document:\n%s" % (pa, pb, text),
+                          {"kind": "macro_block", "file": text, "follower_at": fpos, "signature": sig}, sig)
     chk.rule = ("documents = TLC-emitted symbol sequences (keyword kind, path flag, '(' , ')'): one per sampled "
                 "(reachable state, symbol) pair of the closed graph, all sequences up to the bound, random walks "
                 "to length 40; distinct = distinct symbol sequences; every one has >= 1 placement decision")
@@ -232,6 +249,13 @@ def main(tier, only_replay=None):
 def replay(path):
     rp = json.load(open(path))["replay"]
     chk = Check("C06", "quick")
+    if rp.get("kind") == "macro_block":
+        o = harness("run", [{"id": "mb", "files": {"main.jst": b64(rp["file"])}, "root": "main.jst", "want": ["forest", "pastes"]}])["mb"]
+        chk.evaluations = 1
+        key = ("main.jst", rp["follower_at"])
+        if "paste" in o["stages"] and flatten(o.get("forest") or []).get(key, "absent") != flatten(o.get("pastes") or []).get(key, "absent"):
+            chk.violation("reproduced", rp, rp.get("signature"))
+        return chk.finish()
     if rp.get("kind") == "paste_pair":
         o = harness("run", [{"id": "a", "files": {"main.jst": b64(rp["inlined"])}, "root": "main.jst"},
                             {"id": "b", "files": {"main.jst": b64(rp["macro_form"])}, "root": "main.jst"}])
